@@ -133,9 +133,26 @@ theorem dirsize_unfold (w : World) (fuel : Nat) (p : Path) :
   simp only [walkSize]
   split <;> simp_all
 
-theorem dirsize_exact (cfg : Cfg) (w : World) (st : State) (raw : Bytes) :
+/-- Dir-size of an existing directory is the total size of the regular files beneath it … -/
+theorem dirsize_exact (cfg : Cfg) (w : World) (st : State) (raw : Bytes) (q : Path) (mt : Nat)
+    (hn : (PathStr.cleanRequest raw).all nameOk = true)
+    (hd : w.stat (PathStr.cleanRequest raw) = some (q, .dir mt)) :
     (step cfg w st (.getDirSize raw)).2.2.bytes =
       getDirSizeResult (walkSize w dirSizeFuel (PathStr.cleanRequest raw)) := by
-  simp [step]
+  simp [step, hn, hd]
+
+/-- … and −1 for a path that does not exist or is not a directory (never 0, never a file's size). -/
+theorem dirsize_missing (cfg : Cfg) (w : World) (st : State) (raw : Bytes)
+    (h : w.stat (PathStr.cleanRequest raw) = none) :
+    (step cfg w st (.getDirSize raw)).2.2.bytes = getDirSizeResult (neg1 8) ∧
+      (step cfg w st (.getDirSize raw)).2.2.close = false := by
+  simp only [step]
+  split <;> simp_all
+
+theorem dirsize_of_file (cfg : Cfg) (w : World) (st : State) (raw : Bytes) (q : Path) (i : Nat)
+    (h : w.stat (PathStr.cleanRequest raw) = some (q, .file i)) :
+    (step cfg w st (.getDirSize raw)).2.2.bytes = getDirSizeResult (neg1 8) := by
+  simp only [step]
+  split <;> simp_all
 
 end Ps3.Props.C06
